@@ -591,7 +591,7 @@ func (in *Interp) callBuiltin(caller *frame, callpos token.Pos, fn *ssa.Builtin,
 		}
 		return tt.Const(64, uint64(n))
 	case "close":
-		in.chanClose(caller, args[0].(*chanV))
+		in.chanClose(caller, args[0].(*chanV), callpos)
 		return nil
 	case "delete":
 		m := args[0].(*mapV)
